@@ -81,8 +81,22 @@ def impl_objs():
     return UnitsSystem, UnitsDimensions, Units, UnitValue, UnitArray, compute_conversion_factor, parse_units
 
 
+_MK = [0]
+_ORDERS = [("space", "time", "quantity"), ("time", "space", "quantity"), ("quantity", "time", "space"), ("time", "quantity", "space"),
+           ("quantity", "space", "time"), ("space", "quantity", "time")]
+
+
 def mk_units(sys, dim):
+    """Units from objects, or (every third call) from the two documented dictionary forms with the keys written in one of
+    the six possible orders — the meaning of a dictionary does not depend on the order its keys are written in"""
     UnitsSystem, UnitsDimensions, Units = impl_objs()[:3]
+    _MK[0] += 1
+    k = _MK[0]
+    if k % 3 == 0:
+        o1, o2 = _ORDERS[(k // 3) % 6], _ORDERS[(k // 18) % 6]
+        sv = {"space": sys[0], "time": sys[1], "quantity": sys[2]}
+        dv = {"space": int(dim[0]), "time": int(dim[1]), "quantity": int(dim[2])}
+        return Units({a: sv[a] for a in o1}, {a: dv[a] for a in o2})
     return Units(UnitsSystem(space=sys[0], time=sys[1], quantity=sys[2]),
                  UnitsDimensions(space=dim[0], time=dim[1], quantity=dim[2]))
 
@@ -173,7 +187,8 @@ def run(ctx):
         elif form == "sys":
             t = UnitsSystem(V[0], V[1], V[2])
         else:
-            t = {"space": V[0], "time": V[1], "quantity": V[2]}
+            _tv = {"space": V[0], "time": V[1], "quantity": V[2]}
+            t = {a: _tv[a] for a in _ORDERS[(len(vals) + len(V[0]) + len(V[1]) + len(V[2])) % 6]}   # key order is immaterial
         try:
             y = x.convert(t)
             got = {"vs": [float(v) for v in (y.value if is_arr else [y.value])],
